@@ -110,6 +110,20 @@ def run(tier, seed, rng):
             c.op(e.id, 'parse %s' % hx(v.ident), 'parse-original')
             c.op(e.id, 'roundtrip %s %s' % (hx(v.ident), ','.join(rustgen.name_keys(e, roundtrip=True, v=v))), 'roundtrip')
     out = correspond(res, c, runner.Workspace('c07'), label='modeB')
+    # the SAME identifiers under alternating styles, all in ONE crate (one rustc process, the derives expanded one after the
+    # other): nothing may carry over from one enum to the next
+    cs = Corpus()
+    seq_styles = ['snake_case', 'kebab-case', 'snake_case', 'UPPERCASE', 'snake_case', 'PascalCase', 'kebab-case', 'snake_case']
+    for j, st in enumerate(seq_styles):
+        e = ESpec(id='c07seq%d' % j, name='EnC07seq%d' % j, style=st, derives=['Display', 'EnumString'], feats=['parse', 'names'])
+        e.variants = [VSpec(ident=x) for x in ('DarkBlack', 'BrightWhite', 'HTTPServer', 'lower_case')]
+        e.extra['shape'] = 'same identifiers, style sequence position %d (%s)' % (j, st)
+        e.extra['no_noise'] = True
+        cs.add(e)
+        keys = ','.join(rustgen.name_keys(e))
+        for v in e.variants:
+            cs.op(e.id, 'names %s 0 x %s' % (hx(v.ident), keys), 'names/sequence')
+    correspond(res, cs, runner.Workspace('c07seq'), nshards=1, label='modeB-one-crate')
     table, distinct = distribution(c, out['model'])
     res.cov['input_distribution'] = table
     res.cov['distinct_nontrivial'] = len(idents) * len(STYLE_STRINGS)
